@@ -18,7 +18,7 @@ import (
 // keys. Names that would alias another topic's storage, such as those
 // containing path separators or dot segments, are rejected."
 
-var w1AliasNames = []string{"a", "a/0", "x/../a", "a/./0", "..", ".", "a:0", "A", "a.b", "a/0/1", "a//0", "b", "b/"}
+var w1AliasNames = []string{"a", "a/0", "x/../a", "a/./0", "..", ".", "a:0", "A", "a.b", "a/0/1", "a//0", "b", "b/", "a1"}
 
 func (w *w1) opCreateTopic(client int, op simrt.Op) {
 	name := w.topic(op.A)
@@ -110,6 +110,16 @@ func w1GenTopics(r *rand.Rand, c *simrt.Case, nclients, maxOps int) {
 	cfg["restart_delay_ms"] = 10
 	// each run uses a small subset of names so that aliasing pairs meet often
 	sub := []int64{int64(r.IntN(len(w1AliasNames))), int64(r.IntN(len(w1AliasNames))), int64(r.IntN(4))}
+	digits := r.IntN(5) == 0
+	if digits {
+		// names and partition numbers whose concatenation collides ("a"+"10" = "a1"+"0"), many partitions,
+		// first opens racing over a slow listing
+		cfg["partitions"] = 12
+		cfg["auto_create"] = 1
+		cfg["auto_partitions"] = 12
+		sub = []int64{0, int64(len(w1AliasNames) - 1)}
+		c.Faults = append(c.Faults, simrt.Fault{Kind: "s3.slow", Op: "s3.list", Nth: r.IntN(2), Count: 1 + r.IntN(2), Arg: int64(20+r.IntN(300)) * 1e6})
+	}
 	for cl := 0; cl < nclients; cl++ {
 		n := 2 + r.IntN(maxOps+2)
 		for i := 0; i < n; i++ {
@@ -118,7 +128,11 @@ func w1GenTopics(r *rand.Rand, c *simrt.Case, nclients, maxOps int) {
 			case x < 3:
 				c.Program = append(c.Program, simrt.Op{Actor: cl, Kind: "create-topic", A: name, B: int64(r.IntN(3)), C: int64(r.IntN(3))})
 			case x < 8:
-				c.Program = append(c.Program, simrt.Op{Actor: cl, Kind: "produce", A: name, B: int64(r.IntN(3)), C: int64(1 + r.IntN(3)), D: pick[int64](r, 1, -1)})
+				part := int64(r.IntN(3))
+				if digits {
+					part = pick[int64](r, 0, 1, 10, 11)
+				}
+				c.Program = append(c.Program, simrt.Op{Actor: cl, Kind: "produce", A: name, B: part, C: int64(1 + r.IntN(3)), D: pick[int64](r, 1, -1)})
 			default:
 				c.Program = append(c.Program, simrt.Op{Actor: cl, Kind: "fetch", A: name, B: int64(r.IntN(3)), C: int64(r.IntN(20)), D: 1 << 20})
 			}
